@@ -128,3 +128,466 @@ Proof.
   intros H. destruct (full_refines_timers_lemma reset client o ops H) as (o' & ops' & Hf & _ & Hc).
   rewrite Hc. now apply inv_reach.
 Qed.
+
+(* ================= 2. the invariant of the timer sources ================= *)
+
+(* a discarded space contributes nothing; ack_at is armed exactly while an ACK is owed *)
+Definition sp_ok (s : tspace) : Prop :=
+  (ts_disc s = true -> ts_ack_at s = None /\ ts_loss_time s = None /\ ts_aeif s = 0) /\
+  (ts_ack_at s <> None -> ts_owed s > 0) /\
+  (ts_disc s = false -> ts_owed s > 0 -> ts_ack_at s <> None) /\
+  0 <= ts_owed s.
+
+Definition sinv (f : full) : Prop :=
+  Forall sp_ok (f_sp f) /\ (f_pacing f <> None -> c_has_path (f_c f) = true).
+
+Ltac dsp s := destruct s as [aa lt ae di ow].
+
+Lemma ok_init : sp_ok ts_init.
+Proof. unfold sp_ok; cbn. repeat split; try congruence; lia. Qed.
+Lemma ok_fresh : Forall sp_ok fresh_spaces.
+Proof. repeat constructor; apply ok_init. Qed.
+Lemma ok_discard s : sp_ok s -> sp_ok (ts_discard s).
+Proof. dsp s. unfold sp_ok; cbn. intros (A & B & C & D). repeat split; try congruence; lia. Qed.
+Lemma ok_record s e t d cn : sp_ok s -> sp_ok (ts_record s e t d cn).
+Proof.
+  dsp s. unfold sp_ok, ts_record; cbn. intros (A & B & C & D). destruct di; cbn.
+  - repeat split; intros; auto; apply A; auto.
+  - destruct e, cn, aa; cbn; repeat split; intros; try congruence; try lia;
+      try (assert (ow > 0) by (apply B; congruence); lia); try (apply C; auto; lia).
+Qed.
+Lemma ok_ack_written s : sp_ok s -> sp_ok (ts_ack_written s).
+Proof. dsp s. unfold sp_ok; cbn. intros (A & B & C & D). repeat split; intros; try congruence; try lia; apply A; auto. Qed.
+Lemma ok_sent n s : sp_ok s -> sp_ok (ts_sent n s).
+Proof. dsp s. unfold sp_ok, ts_sent; cbn. intros (A & B & C & D). destruct di; cbn; repeat split; intros; try congruence; auto; try (apply A; auto). Qed.
+Lemma ok_removed n s : sp_ok s -> sp_ok (ts_removed n s).
+Proof. dsp s. unfold sp_ok, ts_removed; cbn. intros (A & B & C & D). destruct di; cbn; repeat split; intros; try congruence; auto; try (apply A; auto). Qed.
+Lemma ok_detect n l s : sp_ok s -> sp_ok (ts_detect n l s).
+Proof. dsp s. unfold sp_ok, ts_detect; cbn. intros (A & B & C & D). destruct di; cbn; repeat split; intros; try congruence; auto; try (apply A; auto). Qed.
+
+Lemma Forall_upd (P : tspace -> Prop) g : (forall s, P s -> P (g s)) -> forall i l, Forall P l -> Forall P (upd i g l).
+Proof.
+  intros Hg i l; revert i; induction l; intros i H; cbn; [destruct i; constructor|].
+  inversion H; subst. destruct i; constructor; auto.
+Qed.
+Lemma ok_sent_all : forall ns l, Forall sp_ok l -> Forall sp_ok (sent_all ns l).
+Proof.
+  intros ns l; revert ns; induction l; intros ns H; [destruct ns; constructor|]. inversion H; subst.
+  destruct ns; cbn; [assumption|]. constructor; [now apply ok_sent|auto].
+Qed.
+Lemma ok_removed_all : forall ns l, Forall sp_ok l -> Forall sp_ok (removed_all ns l).
+Proof.
+  intros ns l; revert ns; induction l; intros ns H; [destruct ns; constructor|]. inversion H; subst.
+  destruct ns; cbn; [assumption|]. constructor; [now apply ok_removed|auto].
+Qed.
+
+Definition oks (f : full) : Prop := Forall sp_ok (f_sp f).
+
+Lemma oks_upd i g f : (forall s, sp_ok s -> sp_ok (g s)) -> oks f -> oks (upd_sp i g f).
+Proof. intros; unfold oks, upd_sp; cbn. now apply Forall_upd. Qed.
+Lemma oks_discard_epoch i f : oks f -> oks (discard_epoch i f).
+Proof.
+  intros H. unfold discard_epoch. destruct (nth_error (f_sp f) i); [|assumption]. destruct (ts_disc t); [assumption|].
+  apply (oks_upd i ts_discard f ok_discard H).
+Qed.
+Lemma oks_discard_all f : oks f -> oks (discard_all f).
+Proof. intros; unfold discard_all. now repeat apply oks_discard_epoch. Qed.
+Lemma oks_reschedule ae f : oks f -> oks (reschedule_data ae f).
+Proof. intros H. unfold oks, reschedule_data; cbn. now apply ok_removed_all. Qed.
+Lemma oks_apply_feff sp e f : oks f -> oks (apply_feff sp e f).
+Proof.
+  intros H. destruct e as [[[n lt]|]| | |ae]; cbn [apply_feff].
+  - destruct (Nat.eqb sp 1 || Nat.eqb sp 2); apply (oks_upd sp (ts_detect n lt)); auto using ok_detect.
+  - destruct (Nat.eqb sp 1 || Nat.eqb sp 2); exact H.
+  - cbn. destruct (c_client (f_c f)); [exact H|]. apply (oks_discard_epoch 1 (set_complete f)). exact H.
+  - destruct (f_confirmed f); [exact H|]. apply (oks_discard_epoch 1 f H).
+  - now apply oks_reschedule.
+Qed.
+Lemma oks_fold_feff sp es : forall f, oks f -> oks (fold_left (fun g e => apply_feff sp e g) es f).
+Proof. induction es; intros; cbn; [assumption|]. apply IHes. now apply oks_apply_feff. Qed.
+Lemma oks_fsrv_init f : oks f -> oks (fsrv_init f).
+Proof. intros H. unfold fsrv_init. destruct (negb (c_client (f_c f)) && is_firstflight (c_state (f_c f))); [apply ok_fresh|exact H]. Qed.
+Lemma oks_srv_discard_initial sp f : oks f -> oks (srv_discard_initial sp f).
+Proof. intros H. unfold srv_discard_initial. destruct (negb (c_client (f_c f)) && Nat.eqb sp 1); [now apply oks_discard_epoch|exact H]. Qed.
+
+Lemma oks_frecv_pkts now ps : forall f, oks f -> oks (frecv_pkts now f ps).
+Proof.
+  induction ps as [|p rest IH]; intros f H; [exact H|].
+  cbn [frecv_pkts]. destruct (fp_base p) as [| |verdict idle|valid idle| |nev pc err idle].
+  - exact H.
+  - apply IH. now apply oks_fsrv_init.
+  - destruct (c_client (f_c f) && is_firstflight (c_state (f_c f)) && negb (c_vn_done (f_c f))); [|exact H].
+    destruct (verdict =? 0); [exact H|]. destruct (verdict =? 1); [|apply ok_fresh].
+    apply (oks_discard_all f H).
+  - destruct (c_client (f_c f) && valid); [apply ok_fresh|exact H].
+  - apply (oks_fsrv_init f H).
+  - cbv zeta.
+    assert (H2 : oks (fold_left (fun g e => apply_feff (fp_space p) e g) (fp_effs p) (srv_discard_initial (fp_space p) (fsrv_init f)))).
+    { apply oks_fold_feff, oks_srv_discard_initial, oks_fsrv_init, H. }
+    destruct (is_end (c_state (proc_pkt now nev pc err (f_c f))) || c_close_pending (proc_pkt now nev pc err (f_c f))); [exact H2|].
+    apply IH. apply oks_upd; [intros; now apply ok_record|]. exact H2.
+Qed.
+
+Lemma oks_whs i h f : oks f -> oks (snd (whs i h f)).
+Proof.
+  intros H. unfold whs. destruct (ts_disc (sp_at f i) || negb (hw_keys h)); [exact H|].
+  destruct (hw_stop h =? 1); [exact H|]. destruct (ts_ack_at (sp_at f i)); [destruct (hw_room h)|]; cbn [snd]; try exact H.
+  apply oks_upd; auto using ok_ack_written.
+Qed.
+Lemma oks_wapp now its : forall f, oks f -> oks (wapp now its f).
+Proof.
+  induction its as [|it rest IH]; intros f H; [exact H|]. cbn [wapp]. cbv zeta.
+  set (consult := match ts_ack_at (sp_at f 2) with None => true | Some a => a >? now end).
+  set (due := match ts_ack_at (sp_at f 2) with Some a => a <=? now | None => false end).
+  assert (Hw : forall g, oks g -> oks (upd_sp 2 ts_ack_written g)) by (intros; apply oks_upd; auto using ok_ack_written).
+  destruct consult; cbn [andb].
+  - destruct (is_some (ai_pacer it)); [exact H|]. destruct (ai_stop it); [exact H|].
+    destruct (f_complete f && due && negb (ai_room it)); [exact H|].
+    destruct (f_complete f && due); (destruct (ai_empty it); [|apply IH]); try apply Hw; exact H.
+  - destruct (ai_stop it); [exact H|].
+    destruct (f_complete f && due && negb (ai_room it)); [exact H|].
+    destruct (f_complete f && due); (destruct (ai_empty it); [|apply IH]); try apply Hw; exact H.
+Qed.
+Lemma oks_writers now w f : oks f -> oks (writers now w f).
+Proof.
+  intros H. unfold writers. destruct (f_confirmed f).
+  - destruct (sw_appkeys w); [now apply oks_wapp|exact H].
+  - pose proof (oks_whs 0 (sw_h0 w) f H) as H0. destruct (whs 0 (sw_h0 w) f) as [st0 f0]. cbn in H0.
+    destruct st0; [exact H0|].
+    pose proof (oks_whs 1 (sw_h1 w) f0 H0) as H1. destruct (whs 1 (sw_h1 w) f0) as [st1 f1]. cbn in H1.
+    destruct st1; [exact H1|]. destruct (sw_appkeys w); [now apply oks_wapp|exact H1].
+Qed.
+
+Lemma oks_fstep reset f o : oks f -> oks (snd (fstep reset f o)).
+Proof.
+  intros H. destruct o as [now idle|now idle0 ps| |now pto3 w|now te| |ptod]; cbn [fstep].
+  - unfold fconnect. destruct (connect now idle (f_c f)); [apply ok_fresh|exact H].
+  - cbn [snd]. unfold freceive. destruct (is_end (c_state (f_c f))); [exact H|]. destruct (c_close_pending (f_c f)); [exact H|].
+    apply oks_frecv_pkts. exact H.
+  - exact H.
+  - unfold fsend. destruct (send now pto3 (sw_produced w) (sw_nev w) (f_c f)) as [[s c']|k]; [|exact H].
+    destruct (ordinary_send (f_c f)); [|exact H]. cbn [snd]. unfold oks. rewrite c_set_sp || idtac.
+    change (oks (if sw_produced w
+                 then if sw_sent_hs w && c_client (f_c f)
+                      then discard_epoch 0 (set_sp (sent_all (sw_ae w) (f_sp (if sw_probe_clr w then set_probe false (writers now w (if reset then set_pacing None f else f)) else writers now w (if reset then set_pacing None f else f)))) (if sw_probe_clr w then set_probe false (writers now w (if reset then set_pacing None f else f)) else writers now w (if reset then set_pacing None f else f)))
+                      else set_sp (sent_all (sw_ae w) (f_sp (if sw_probe_clr w then set_probe false (writers now w (if reset then set_pacing None f else f)) else writers now w (if reset then set_pacing None f else f)))) (if sw_probe_clr w then set_probe false (writers now w (if reset then set_pacing None f else f)) else writers now w (if reset then set_pacing None f else f))
+                 else if sw_probe_clr w then set_probe false (writers now w (if reset then set_pacing None f else f)) else writers now w (if reset then set_pacing None f else f))).
+    assert (Hw : oks (writers now w (if reset then set_pacing None f else f))) by (apply oks_writers; destruct reset; exact H).
+    set (fw := writers now w (if reset then set_pacing None f else f)) in *.
+    assert (H2 : oks (if sw_probe_clr w then set_probe false fw else fw)) by (destruct (sw_probe_clr w); exact Hw).
+    set (f2 := if sw_probe_clr w then set_probe false fw else fw) in *.
+    destruct (sw_produced w); [|exact H2].
+    assert (H3 : oks (set_sp (sent_all (sw_ae w) (f_sp f2)) f2)) by (apply ok_sent_all; exact H2).
+    destruct (sw_sent_hs w && c_client (f_c f)); [now apply oks_discard_epoch|exact H3].
+  - unfold ftimer. destruct (timer now (f_c f)) as [c'|k]; [|exact H].
+    destruct (fired now (f_c f)); [apply (oks_discard_all f H)|].
+    assert (Ho : oks (on_loss_detection_timeout te (set_c c' f))).
+    { unfold on_loss_detection_timeout. destruct (lspace (f_sp (set_c c' f))) as [[i lt]|].
+      - apply oks_upd; [intros; now apply ok_detect|exact H].
+      - apply oks_reschedule. exact H. }
+    destruct (c_loss_at (f_c f)); [destruct (now >=? z)|]; cbn [snd]; assumption.
+  - destruct (next_event (f_c f)); exact H.
+  - unfold fget_timer. destruct (get_timer (acks_of f) (loss_time_of f ptod) (f_pacing f) (f_c f)); exact H.
+Qed.
+
+(* _network_paths never becomes empty again *)
+Ltac ifs := repeat match goal with |- context [if ?b then _ else _] => destruct b; cbn end.
+
+Lemma hp_do_close k c : c_has_path (do_close k c) = c_has_path c.
+Proof. unfold do_close. ifs; reflexivity. Qed.
+Lemma hp_srv_init c : c_has_path c = true -> c_has_path (srv_init c) = true.
+Proof. unfold srv_init. ifs; auto. Qed.
+Lemma hp_proc_pkt now nev pc err c : c_has_path c = true -> c_has_path (proc_pkt now nev pc err c) = true.
+Proof.
+  intros H. unfold proc_pkt. cbv zeta. destruct err; [rewrite hp_do_close|];
+  (destruct pc; [destruct (is_none _)|]; cbn; destruct (is_firstflight _); cbn; now apply hp_srv_init).
+Qed.
+Lemma hp_recv_pkts now ps : forall c, c_has_path c = true -> c_has_path (recv_pkts now c ps) = true.
+Proof.
+  induction ps as [|p rest IH]; intros c H; [exact H|]. cbn [recv_pkts]. destruct p as [| |v idle|valid idle| |nev pc err idle].
+  - exact H.
+  - apply IH. now apply hp_srv_init.
+  - unfold vn_pkt. ifs; auto.
+  - ifs; auto.
+  - rewrite hp_do_close. now apply hp_srv_init.
+  - cbv zeta. pose proof (hp_proc_pkt now nev pc err c H). destruct (_ || _); [assumption|]. apply IH. exact H0.
+Qed.
+Lemma hp_step c o : c_has_path c = true -> c_has_path (snd (step c o)) = true.
+Proof.
+  intros H. destruct o; cbn [step].
+  - unfold connect. ifs; auto.
+  - cbn [snd]. unfold receive. destruct (is_end _); [exact H|]. destruct (c_close_pending c); [exact H|].
+    apply hp_recv_pkts. destruct (is_none _); exact H.
+  - cbn. now rewrite hp_do_close.
+  - unfold send. rewrite H. cbn. ifs; auto.
+  - unfold timer. destruct (c_close_at c); [|exact H]. ifs; auto.
+  - unfold next_event. destruct (c_events c); exact H.
+  - unfold get_timer. destruct (is_end _); [exact H|]. destruct (fold_left _ _ _); [|exact H].
+    destruct (tmin _ _); exact H.
+Qed.
+
+(* _pacing_at is written by datagrams_to_send only *)
+Lemma p_discard_epoch i f : f_pacing (discard_epoch i f) = f_pacing f.
+Proof. unfold discard_epoch. destruct (nth_error (f_sp f) i); [destruct (ts_disc t)|]; reflexivity. Qed.
+Lemma p_discard_all f : f_pacing (discard_all f) = f_pacing f.
+Proof. unfold discard_all. now rewrite !p_discard_epoch. Qed.
+Lemma p_apply_feff sp e f : f_pacing (apply_feff sp e f) = f_pacing f.
+Proof.
+  destruct e as [[[n lt]|]| | |ae]; cbn [apply_feff].
+  - destruct (Nat.eqb sp 1 || Nat.eqb sp 2); reflexivity.
+  - destruct (Nat.eqb sp 1 || Nat.eqb sp 2); reflexivity.
+  - cbn. destruct (c_client (f_c f)); [reflexivity|]. cbn. now rewrite p_discard_epoch.
+  - destruct (f_confirmed f); [reflexivity|]. cbn. now rewrite p_discard_epoch.
+  - reflexivity.
+Qed.
+Lemma p_fold_feff sp es : forall f, f_pacing (fold_left (fun g e => apply_feff sp e g) es f) = f_pacing f.
+Proof. induction es; intros; cbn; [reflexivity|]. now rewrite IHes, p_apply_feff. Qed.
+Lemma p_fsrv_init f : f_pacing (fsrv_init f) = f_pacing f.
+Proof. unfold fsrv_init. destruct (negb (c_client (f_c f)) && is_firstflight (c_state (f_c f))); reflexivity. Qed.
+Lemma p_srv_discard_initial sp f : f_pacing (srv_discard_initial sp f) = f_pacing f.
+Proof. unfold srv_discard_initial. destruct (negb (c_client (f_c f)) && Nat.eqb sp 1); [apply p_discard_epoch|reflexivity]. Qed.
+Lemma p_frecv_pkts now ps : forall f, f_pacing (frecv_pkts now f ps) = f_pacing f.
+Proof.
+  induction ps as [|p rest IH]; intros f; [reflexivity|].
+  cbn [frecv_pkts]. destruct (fp_base p) as [| |verdict idle|valid idle| |nev pc err idle].
+  - reflexivity.
+  - now rewrite IH, p_fsrv_init.
+  - destruct (c_client (f_c f) && is_firstflight (c_state (f_c f)) && negb (c_vn_done (f_c f))); [|reflexivity].
+    destruct (verdict =? 0); [reflexivity|]. destruct (verdict =? 1); cbn; [apply p_discard_all|reflexivity].
+  - destruct (c_client (f_c f) && valid); reflexivity.
+  - cbn. now rewrite p_fsrv_init.
+  - cbv zeta. destruct (is_end (c_state (proc_pkt now nev pc err (f_c f))) || c_close_pending (proc_pkt now nev pc err (f_c f))).
+    + cbn. now rewrite p_fold_feff, p_srv_discard_initial, p_fsrv_init.
+    + rewrite IH. cbn. now rewrite p_fold_feff, p_srv_discard_initial, p_fsrv_init.
+Qed.
+
+Lemma p_fstep reset f o : (forall now pto3 w, o <> FSend now pto3 w) -> f_pacing (snd (fstep reset f o)) = f_pacing f.
+Proof.
+  intros Hn. destruct o as [now idle|now idle0 ps| |now pto3 w|now te| |ptod]; cbn [fstep].
+  - unfold fconnect. destruct (connect now idle (f_c f)); reflexivity.
+  - cbn [snd]. unfold freceive. destruct (is_end (c_state (f_c f))); [reflexivity|]. destruct (c_close_pending (f_c f)); [reflexivity|].
+    now rewrite p_frecv_pkts.
+  - reflexivity.
+  - exfalso. eapply Hn; reflexivity.
+  - unfold ftimer. destruct (timer now (f_c f)) as [c'|k]; [|reflexivity].
+    destruct (fired now (f_c f)); [cbn; apply p_discard_all|].
+    assert (Ho : f_pacing (on_loss_detection_timeout te (set_c c' f)) = f_pacing f).
+    { unfold on_loss_detection_timeout. destruct (lspace (f_sp (set_c c' f))) as [[i lt]|]; reflexivity. }
+    destruct (c_loss_at (f_c f)); [destruct (now >=? z)|]; cbn [snd]; auto.
+  - destruct (next_event (f_c f)); reflexivity.
+  - unfold fget_timer. destruct (get_timer (acks_of f) (loss_time_of f ptod) (f_pacing f) (f_c f)); reflexivity.
+Qed.
+
+Lemma sinv_fstep reset f o : sinv f -> sinv (snd (fstep reset f o)).
+Proof.
+  intros [H1 H2]. split; [now apply oks_fstep|].
+  destruct (fstep_base reset f o) as [_ Hc]. rewrite Hc.
+  destruct o as [now idle|now idle0 ps| |now pto3 w|now te| |ptod];
+    try (rewrite p_fstep by congruence; intros Hp; apply hp_step; auto).
+  intros Hp. destruct (c_has_path (f_c f)) eqn:Ehp.
+  - apply hp_step; exact Ehp.
+  - exfalso. cbn [fstep] in Hp. unfold fsend, send, ordinary_send in Hp. rewrite Ehp in Hp. cbn in Hp.
+    apply H2 in Hp. congruence.
+Qed.
+
+Lemma sinv_init client : sinv (full_init client).
+Proof. split; [constructor|cbn; congruence]. Qed.
+Lemma sinv_frun reset ops : forall f, sinv f -> sinv (snd (frun reset f ops)).
+Proof.
+  induction ops as [|o t IH]; intros f H; [exact H|]. cbn [frun].
+  pose proof (sinv_fstep reset f o H) as H1. destruct (fstep reset f o) as [r f1]. cbn in H1.
+  specialize (IH f1 H1). destruct (frun reset f1 t). exact IH.
+Qed.
+
+(* ================= 3. timer_sources_sound ================= *)
+
+Lemma fold_ack_scan l : forall i cur,
+  fold_left (fun cur a => tmin a cur) (map ts_ack_at l) (Ok (Some (fst cur))) = Ok (Some (fst (ack_scan i l cur))).
+Proof.
+  induction l as [|s t IH]; intros i cur; [reflexivity|]. cbn [map fold_left ack_scan].
+  destruct (ts_ack_at s) as [a|]; cbn [tmin].
+  - rewrite <- (IH (S i)). destruct (a <? fst cur); reflexivity.
+  - apply IH.
+Qed.
+
+Lemma ack_scan_spec l : forall i cur v s, ack_scan i l cur = (v, s) ->
+  v <= fst cur /\ (forall sp a, In sp l -> ts_ack_at sp = Some a -> v <= a) /\
+  ((v, s) = cur \/ exists j sp, s = SrcAck (i + j) /\ nth_error l j = Some sp /\ ts_ack_at sp = Some v).
+Proof.
+  induction l as [|h t IH]; intros i cur v s H; cbn [ack_scan] in H.
+  - subst cur. cbn. repeat split; [lia|intros ? ? []|now left].
+  - apply IH in H. destruct H as (H1 & H2 & H3).
+    assert (Hc : fst (match ts_ack_at h with Some a => if a <? fst cur then (a, SrcAck i) else cur | None => cur end) <= fst cur
+                 /\ forall a, ts_ack_at h = Some a -> fst (match ts_ack_at h with Some a => if a <? fst cur then (a, SrcAck i) else cur | None => cur end) <= a).
+    { destruct (ts_ack_at h) as [a|]; [|split; [lia|congruence]].
+      destruct (a <? fst cur) eqn:E; cbn; split; try lia; intros a' Ha; inversion Ha; subst; lia. }
+    destruct Hc as [Hc1 Hc2]. split; [lia|]. split.
+    + intros sp a [->|Hin] Ha; [specialize (Hc2 a Ha); lia|eauto].
+    + destruct H3 as [H3|(j & sp & Hs & Hn & Ha)].
+      * destruct (ts_ack_at h) as [a|] eqn:Ea; [|now left].
+        destruct (a <? fst cur); [|now left]. right. exists O, h. inversion H3; subst. rewrite Nat.add_0_r. auto.
+      * right. exists (S j), sp. rewrite Nat.add_succ_r. auto.
+Qed.
+
+Lemma lspace_from_spec l : forall i best,
+  match lspace_from i l best with
+  | None => best = None /\ forall sp, In sp l -> ts_loss_time sp = None
+  | Some (j, lt) =>
+      (forall sp x, In sp l -> ts_loss_time sp = Some x -> lt <= x) /\ (forall k b, best = Some (k, b) -> lt <= b) /\
+      (best = Some (j, lt) \/ exists k sp, j = (i + k)%nat /\ nth_error l k = Some sp /\ ts_loss_time sp = Some lt)
+  end.
+Proof.
+  induction l as [|h t IH]; intros i best; cbn [lspace_from].
+  - destruct best as [[j lt]|]; [|split; [reflexivity|intros ? []]].
+    repeat split; [intros ? ? []|intros k b Hb; inversion Hb; lia|now left].
+  - set (best' := match ts_loss_time h, best with
+                  | Some lt, None => Some (i, lt)
+                  | Some lt, Some (_, b) => if lt <? b then Some (i, lt) else best
+                  | None, _ => best end).
+    specialize (IH (S i) best'). destruct (lspace_from (S i) t best') as [[j lt]|].
+    + destruct IH as (A & B & C).
+      assert (Hh : forall x, ts_loss_time h = Some x -> lt <= x).
+      { intros x Hx. subst best'. rewrite Hx in B. destruct best as [[k b]|].
+        - destruct (x <? b) eqn:E; [apply (B i x eq_refl)|specialize (B k b eq_refl); lia].
+        - apply (B i x eq_refl). }
+      assert (Hb : forall k b, best = Some (k, b) -> lt <= b).
+      { intros k b ->. subst best'. destruct (ts_loss_time h) as [x|]; [|apply (B k b eq_refl)].
+        destruct (x <? b) eqn:E; [specialize (B i x eq_refl); lia|apply (B k b eq_refl)]. }
+      repeat split; auto.
+      * intros sp x [->|Hin] Hx; eauto.
+      * destruct C as [C|(k & sp & -> & Hn & Hl)].
+        -- subst best'. destruct (ts_loss_time h) as [x|] eqn:Ex; [|now left].
+           destruct best as [[k b]|].
+           ++ destruct (x <? b); [|now left]. inversion C; subst. right. exists O, h. rewrite Nat.add_0_r. auto.
+           ++ inversion C; subst. right. exists O, h. rewrite Nat.add_0_r. auto.
+        -- right. exists (S k), sp. rewrite Nat.add_succ_r. auto.
+    + destruct IH as [A B]. subst best'. destruct (ts_loss_time h) as [x|] eqn:Ex.
+      * destruct best as [[k b]|]; [destruct (x <? b)|]; discriminate.
+      * split; [exact A|]. intros sp [->|Hin]; auto.
+Qed.
+
+Lemma sum_aeif_pos l : sum_aeif l > 0 -> exists sp, In sp l /\ ts_aeif sp > 0.
+Proof.
+  unfold sum_aeif. induction l as [|h t IH]; cbn; [lia|]. intros H. destruct (Z_gt_le_dec (ts_aeif h) 0).
+  - exists h; auto.
+  - destruct IH as (sp & Hin & Hp); [lia|]. exists sp; auto.
+Qed.
+
+Definition src_legit (ptod d : Z) (f : full) (v : Z) (s : src) : Prop :=
+  match s with
+  | SrcClose => v = d
+  | SrcAck i => exists sp, nth_error (f_sp f) i = Some sp /\ ts_ack_at sp = Some v /\ ts_disc sp = false /\ ts_owed sp > 0
+  | SrcLossTime i => exists sp, nth_error (f_sp f) i = Some sp /\ ts_loss_time sp = Some v /\ ts_disc sp = false /\
+                                lspace (f_sp f) = Some (i, v)
+  | SrcPto => v = ptod /\ lspace (f_sp f) = None /\
+              (f_pcav f = false \/ exists sp, In sp (f_sp f) /\ ts_disc sp = false /\ ts_aeif sp > 0)
+  | SrcPacing => f_pacing f = Some v
+  end.
+
+Definition lower_bound (ptod d : Z) (f : full) (v : Z) : Prop :=
+  v <= d /\ (forall sp a, In sp (f_sp f) -> ts_ack_at sp = Some a -> v <= a) /\
+  (forall l, loss_time_of f ptod = Some l -> v <= l) /\ (forall p, f_pacing f = Some p -> v <= p).
+
+Lemma fget_timer_src ptod d f : is_end (c_state (f_c f)) = false -> c_close_at (f_c f) = Some d ->
+  fst (fget_timer ptod f) = Ok (Some (fst (timer_src ptod d f))).
+Proof.
+  intros He Hd. unfold fget_timer, get_timer, acks_of. rewrite He, Hd.
+  pose proof (fold_ack_scan (f_sp f) O (d, SrcClose)) as Hf. cbn [fst] in Hf. rewrite Hf. clear Hf. unfold timer_src, loss_time_of.
+  set (cur := ack_scan 0 (f_sp f) (d, SrcClose)).
+  destruct (lspace (f_sp f)) as [[i lt]|]; cbn [fst tmin].
+  - destruct (lt <? fst cur); cbn [fst]; (destruct (f_pacing f) as [p|]; cbn [fst tmin]; [|reflexivity]).
+    + destruct (p <? lt); reflexivity.
+    + destruct (p <? fst cur); reflexivity.
+  - destruct (negb (f_pcav f) || (sum_aeif (f_sp f) >? 0)); cbn [fst tmin].
+    + destruct (ptod <? fst cur); cbn [fst]; (destruct (f_pacing f) as [p|]; cbn [fst tmin]; [|reflexivity]).
+      * destruct (p <? ptod); reflexivity.
+      * destruct (p <? fst cur); reflexivity.
+    + destruct (f_pacing f) as [p|]; cbn [fst tmin]; [|reflexivity]. destruct (p <? fst cur); reflexivity.
+Qed.
+
+Lemma nth_error_ok l i (sp : tspace) : Forall sp_ok l -> nth_error l i = Some sp -> sp_ok sp.
+Proof. intros H Hn. apply nth_error_In in Hn. rewrite Forall_forall in H. auto. Qed.
+
+Lemma timer_src_sound ptod d f v s : oks f -> timer_src ptod d f = (v, s) ->
+  src_legit ptod d f v s /\ lower_bound ptod d f v.
+Proof.
+  intros Hok. unfold timer_src.
+  destruct (ack_scan 0 (f_sp f) (d, SrcClose)) as [v0 s0] eqn:E0.
+  apply ack_scan_spec in E0. destruct E0 as (A1 & A2 & A3). cbn [fst] in *.
+  assert (L0 : src_legit ptod d f v0 s0).
+  { destruct A3 as [A3|(j & sp & -> & Hn & Ha)]; [inversion A3; reflexivity|]. cbn [Nat.add src_legit].
+    exists sp. pose proof (nth_error_ok _ _ _ Hok Hn) as (P1 & P2 & P3 & P4). repeat split; auto.
+    - destruct (ts_disc sp) eqn:Ed; [|reflexivity]. destruct (P1 eq_refl) as [Q _]. congruence.
+    - apply P2. congruence. }
+  pose proof (lspace_from_spec (f_sp f) O None) as Hl. fold (lspace (f_sp f)) in Hl.
+  unfold lower_bound, loss_time_of.
+  destruct (lspace (f_sp f)) as [[i lt]|] eqn:El.
+  - destruct Hl as (B1 & B2 & B3). destruct B3 as [B3|(k & sp & -> & Hn & Hlt)]; [discriminate|]. cbn [Nat.add] in *.
+    assert (L1 : src_legit ptod d f lt (SrcLossTime k)).
+    { exists sp. pose proof (nth_error_ok _ _ _ Hok Hn) as (P1 & _). repeat split; auto.
+      destruct (ts_disc sp) eqn:Ed; [|reflexivity]. destruct (P1 eq_refl) as (_ & Q & _). congruence. }
+    destruct (lt <? v0) eqn:E1; cbn [fst].
+    + destruct (f_pacing f) as [p|] eqn:Ep.
+      * destruct (p <? lt) eqn:E2; intros H; inversion H; subst; (split; [cbn; auto|]);
+          repeat split; try lia; intros; try (match goal with H : Some _ = Some _ |- _ => inversion H; subst end); try lia;
+          try (specialize (A2 _ _ H0 H1); lia).
+      * intros H; inversion H; subst. split; [exact L1|]. repeat split; try lia; intros; try discriminate;
+          try (match goal with H : Some _ = Some _ |- _ => inversion H; subst end); try lia. specialize (A2 _ _ H0 H1); lia.
+    + destruct (f_pacing f) as [p|] eqn:Ep.
+      * destruct (p <? v0) eqn:E2; intros H; inversion H; subst; (split; [cbn; auto|]);
+          repeat split; try lia; intros; try (match goal with H : Some _ = Some _ |- _ => inversion H; subst end); try lia;
+          try (specialize (A2 _ _ H0 H1); lia).
+      * intros H; inversion H; subst. split; [exact L0|]. repeat split; try lia; intros; try discriminate;
+          try (match goal with H : Some _ = Some _ |- _ => inversion H; subst end); try lia. specialize (A2 _ _ H0 H1); lia.
+  - destruct Hl as [_ Hnone].
+    destruct (negb (f_pcav f) || (sum_aeif (f_sp f) >? 0)) eqn:Earm.
+    + assert (L1 : src_legit ptod d f ptod SrcPto).
+      { cbn. repeat split; auto. apply orb_true_iff in Earm. destruct Earm as [E|E].
+        - left. now destruct (f_pcav f).
+        - right. apply Z.gtb_lt in E. destruct (sum_aeif_pos (f_sp f)) as (sp & Hin & Hp); [lia|].
+          exists sp. repeat split; auto. unfold oks in Hok. rewrite Forall_forall in Hok. destruct (Hok sp Hin) as (P1 & _).
+          destruct (ts_disc sp); [|reflexivity]. destruct (P1 eq_refl) as (_ & _ & Q). lia. }
+      destruct (ptod <? v0) eqn:E1; cbn [fst].
+      * destruct (f_pacing f) as [p|] eqn:Ep.
+        -- destruct (p <? ptod) eqn:E2; intros H; inversion H; subst; (split; [cbn; auto|]);
+             repeat split; try lia; intros; try (match goal with H : Some _ = Some _ |- _ => inversion H; subst end); try lia;
+             try (specialize (A2 _ _ H0 H1); lia).
+        -- intros H; inversion H; subst. split; [exact L1|]. repeat split; try lia; intros; try discriminate;
+             try (match goal with H : Some _ = Some _ |- _ => inversion H; subst end); try lia. specialize (A2 _ _ H0 H1); lia.
+      * destruct (f_pacing f) as [p|] eqn:Ep.
+        -- destruct (p <? v0) eqn:E2; intros H; inversion H; subst; (split; [cbn; auto|]);
+             repeat split; try lia; intros; try (match goal with H : Some _ = Some _ |- _ => inversion H; subst end); try lia;
+             try (specialize (A2 _ _ H0 H1); lia).
+        -- intros H; inversion H; subst. split; [exact L0|]. repeat split; try lia; intros; try discriminate;
+             try (match goal with H : Some _ = Some _ |- _ => inversion H; subst end); try lia. specialize (A2 _ _ H0 H1); lia.
+    + cbn [fst]. destruct (f_pacing f) as [p|] eqn:Ep.
+      * destruct (p <? v0) eqn:E2; intros H; inversion H; subst; (split; [cbn; auto|]);
+          repeat split; try lia; intros; try discriminate; try (match goal with H : Some _ = Some _ |- _ => inversion H; subst end); try lia;
+          try (specialize (A2 _ _ H0 H1); lia).
+      * intros H; inversion H; subst. split; [exact L0|]. repeat split; try lia; intros; try discriminate.
+        specialize (A2 _ _ H0 H1); lia.
+Qed.
+
+Lemma freach_sinv reset client o ops : sinv (snd (frun reset (full_init client) (o :: ops))).
+Proof. apply sinv_frun, sinv_init. Qed.
+
+Lemma timer_sources_sound_lemma : forall reset client o ops ptod, ffirst_op client o ->
+  let f := snd (frun reset (full_init client) (o :: ops)) in
+  c_state (f_c f) <> TERMINATED ->
+  exists d, c_close_at (f_c f) = Some d /\
+    (is_end (c_state (f_c f)) = true -> fst (fget_timer ptod f) = Ok (Some d)) /\
+    (is_end (c_state (f_c f)) = false ->
+       fst (fget_timer ptod f) = Ok (Some (fst (timer_src ptod d f))) /\
+       src_legit ptod d f (fst (timer_src ptod d f)) (snd (timer_src ptod d f)) /\
+       lower_bound ptod d f (fst (timer_src ptod d f))) /\
+    Forall sp_ok (f_sp f).
+Proof.
+  intros reset client o ops ptod Hf f Hs.
+  pose proof (freach_inv reset client o ops Hf) as Hi. fold f in Hi.
+  pose proof (freach_sinv reset client o ops) as [Hok _]. fold f in Hok.
+  destruct Hi as (I1 & _). destruct (c_close_at (f_c f)) as [d|] eqn:Ed; [|exfalso; apply Hs, I1; reflexivity].
+  exists d. split; [reflexivity|]. split; [|split; [|exact Hok]].
+  - intros He. unfold fget_timer, get_timer. rewrite He, Ed. reflexivity.
+  - intros He. split; [now apply fget_timer_src|].
+    apply (timer_src_sound ptod d f); [exact Hok|]. now destruct (timer_src ptod d f).
+Qed.
